@@ -24,9 +24,16 @@ CODEC = ('c01', lambda r, w, s: r.startswith('C01.'),
          'and decoded by marshal.py (the round-trip clauses of C01)')
 
 PREMISES = {
-    'C02': [('c03', lambda r, w, s: r == 'C03.D4',
+    'C01': [('c19', lambda r, w, s: r == 'C19.D2',
+             'the content of a variant is encoded under the signature '
+             'inferred for it: every conforming value must get one it can be '
+             'encoded under (C19.D2)')],
+    'C02': [('c03', lambda r, w, s: r == 'C03.D4' or s in (
+        'unknown-code-skips-one-field', 'field-loop-visits-every-field'),
              'a message on the wire is header + padding + body, both in the '
-             'byte order its first byte announces (C03.D4)')],
+             'byte order its first byte announces (C03.D4); a conformant '
+             'message of another implementation may carry header fields '
+             'this one does not know, and decodes all the same (C03.D3)')],
     'C03': [CODEC,
             ('c18', lambda r, w, s: r == 'C18.D1',
              'the constructors refuse invalid names through validators that '
@@ -61,7 +68,11 @@ PREMISES = {
              'the caller\'s replaceKnownInterfaces flag reaches the XML '
              'parser under that name (C11.D1 name/role agreement on the '
              'introspection path)')],
-    'C16': [CODEC],
+    'C16': [CODEC,
+            ('c10', lambda r, w, s: r == 'C10.D1',
+             'what a peer sees of the tree are the dispatcher\'s answers: '
+             'every way out of it sends exactly one reply - UnknownObject '
+             'included (C10.D1)')],
     'C17': [CODEC,
             ('c19', lambda r, w, s: r == 'C19.D2',
              'PropertiesChanged carries the raw value as a variant: the type '
